@@ -167,6 +167,10 @@ func (s *SchedCheck) RunGenerated(c *spec.Case, env *run.Env) run.CaseResult {
 		stats.Inc("dra_cases")
 		stats.Add("dra_claims_generated", len(c.Objects.ResourceClaims))
 		stats.Add("dra_devices_generated", countDevices(&c.Objects))
+		if n := countGpuClaims(&c.Objects); n > 0 { // GPU-class claims (gen/dra_gpu.go)
+			stats.Inc("dra_gpu_cases")
+			stats.Add("dra_gpu_claims_generated", n)
+		}
 	}
 	for cyc := 1; cyc <= c.Cycles; cyc++ {
 		before := st.ReadAll()
@@ -253,6 +257,19 @@ func (s *SchedCheck) RunGenerated(c *spec.Case, env *run.Env) run.CaseResult {
 	}
 	res.Sample = sampleOf(c, hist)
 	return res
+}
+
+func countGpuClaims(o *spec.Objects) int {
+	n := 0
+	for _, c := range o.ResourceClaims {
+		for _, r := range c.Spec.Devices.Requests {
+			if r.Exactly != nil && strings.Contains(strings.ToLower(r.Exactly.DeviceClassName), "gpu") {
+				n++
+				break
+			}
+		}
+	}
+	return n
 }
 
 func countDevices(o *spec.Objects) int {
